@@ -145,6 +145,7 @@ func runFootprint(c *core.Ctx, tab *Table) error {
 				c.Count(fmt.Sprintf("fp|%s|%s|%v", tn, m, path), true)
 			}
 		}
+		t.Emit(core.Ev{"ev": "Done"})
 	}
 	return nil
 }
@@ -199,11 +200,12 @@ func runWatchdog(c *core.Ctx, tab *Table) error {
 				}
 				t.Emit(ev)
 				c.Count(fmt.Sprintf("wd|%s|%s|%d", tn, m, variant), true)
-				if len(ms) > 0 && m == ms[0] && variant == 0 {
+				if len(ms) > 0 && m == ms[0] && variant == 0 && cas < 2 {
 					c.Sample(ev)
 				}
 			}
 		}
+		t.Emit(core.Ev{"ev": "Done"})
 	}
 	return nil
 }
